@@ -24,7 +24,7 @@ TEXT = {
          "same as C01; documented text format", "rapidcheck PBT, diagnostic-text parser + reference automaton + text-driven table interpreter", "5/C11"),
  "C03": ("exploration", "Generated patterns in the documented syntax; for each, the automaton built by the real builder is compared with a reference DFA over all byte strings (exact per pattern), witnesses confirmed on the real matcher. A known construction defect (F5) is scoped by a behavioural model so that any other deviation is still reported.",
          "reference regex semantics; real pattern parser/builder driven at run time through public API", "rapidcheck PBT, automata equivalence vs reference DFA + derivative matcher, three-way bug-model scope", "5/C03"),
- "C12": ("exploration", "Sub-check (a): predicted automaton size vs states actually used for generated patterns with nested/large repetitions, with the cvector bounds monitor on. (Table caps and fixed stacks are added by later jobs of this check.)",
+ "C12": ("exploration", "Four sub-checks with the cvector bounds monitor on: (a) predicted regex automaton size vs states used, (l) lexer automaton vs sum of term budgets, (b) custom table limits around the real state/situation counts (too small => loud rejection, sufficient => same behaviour), (c) fixed stacks of cstring_buffer<N> for N <= 20 vs the string_buffer run.",
          "builder capacity 1024 in the harness; bounds monitor hook", "rapidcheck PBT, invariant (used <= predicted) + bounds monitor", "5/C12"),
  "C17": ("exploration", "Sub-check (a): category-mutated malformed patterns must be refused by both construction paths; scanning any string stays inside its NUL-terminated block (ASan). (Undeclared grammar symbols need compiled programs and are added by the compiled tier.)",
          "reference classification VALID/MALFORMED/UNSPECIFIED", "rapidcheck PBT, mutation-based negative testing + ASan", "5/C17"),
